@@ -46,3 +46,10 @@ Print Assumptions C18_loc_after_counts.
 Theorem C18_positions_move_forward : forall pre l, loc_le l (loc_after l pre).
 Proof. exact loc_after_forward. Qed.
 Print Assumptions C18_positions_move_forward.
+
+(** errors inside f-string segments: located at the literal (a position of the source),
+    not at the nested parser's segment-relative position *)
+Theorem C18_segment_error_at_literal : forall rec_src at_ segs t l,
+  check_segments rec_src at_ segs t = PErr l -> l = at_.
+Proof. exact segment_error_at_literal. Qed.
+Print Assumptions C18_segment_error_at_literal.
